@@ -44,10 +44,13 @@ func main() {
 			opts.Seed = s
 		}
 		if opts.Tier == "thorough" {
-			opts.Timeout, opts.All = 120, true
+			opts.Timeout, opts.All = 240, true
 		} else {
 			opts.Tier = "quick"
-			opts.Timeout = 60 // most obligations answer in < 1 s; the slowest claimed one takes ~15 s (30 s on a loaded machine)
+			// most obligations answer in < 1 s; the slowest claimed one takes 10-20 s on an idle machine and was
+			// seen at 50 s under load; a timeout is reported as a violation, so the limit is generous - it only
+			// costs time when something really is undecided
+			opts.Timeout = 150
 		}
 		if *timeout > 0 {
 			opts.Timeout = *timeout
